@@ -67,10 +67,12 @@ def handle (a b c u before : String) : String :=
     -- with the updates substituted.  `rb=` is the model's own reading of the sections (compared with the case's).
     let spec := showReqs (substitute rb us)
     let rbm := showReqs (requirements d)
+    -- Spec.readComplete on what the REAL Read reported: no entry of the file is missing from the requirements
+    let rc := boolStr (readComplete d rb)
     match write d us with
-    | .err => s!"r=err rb={rbm} wf={boolStr wf} spec={spec}"
+    | .err => s!"r=err rb={rbm} wf={boolStr wf} spec={spec} rc={rc}"
     | .ok d' =>
-      s!"r=ok dev={showSec d'.dev} opt={showSec d'.opt} prod={showSec d'.prod} reqs={showReqs (requirements d')} rb={rbm} wf={boolStr wf} spec={spec}"
+      s!"r=ok dev={showSec d'.dev} opt={showSec d'.opt} prod={showSec d'.prod} reqs={showReqs (requirements d')} rb={rbm} wf={boolStr wf} spec={spec} rc={rc}"
   | _, _, _, _, _ => "bad-op"
 end NpmDrv
 
@@ -128,14 +130,16 @@ def showReqs (rs : List Req) : String :=
 def handlePom (pv ds ps us before : String) : String :=
   match unhexS pv, parseDeps ds, parseProps ps, parseUpds us, parseReqs before with
   | some pv, some ds, some ps, some us, some rb =>
-    let pom : Pom := ⟨ds, ps, pv⟩
+    let pom : Pom := ⟨ds, ps, pv, "root.g".toList⟩   -- c13gen renders every project as root.g:root-a
     -- in scope of the property: every update is addressed to a requirement present in the file (key, origin AND old version,
     -- as the real Read reported them), one update per key
-    let scope := us.all (fun u => !(hits pom u).isEmpty) && decide ((us.map (·.key)).Nodup) && us.all (fun u => rb.any (addresses u))
+    let scope := us.all (fun u => !(hits pom u).isEmpty || keyProperty pom [u]) && decide ((us.map (·.key)).Nodup) && us.all (fun u => rb.any (addresses u))
     let cls := match feature pom us with | some k => k | none => "-"
     -- spec: Spec.substitute on the requirements the case carries (the real Read's), wf: Spec.WFcase
     let spec := showReqs (substitute rb us)
-    let tail := s!"rb={showReqs (requirements pom)} spec={spec} wf={boolStr (WFcase pom us)} cls={cls} scope={boolStr scope}"
+    -- updates for keys the pom does not hold: the requirement each must add (dependencyManagement of the project)
+    let added : List Req := (us.filter fun u => (hits pom u).isEmpty && !keyProperty pom [u] && u.ga.isSome).map fun u => ⟨sManagement, u.key, u.to⟩
+    let tail := s!"rb={showReqs (requirements pom)} spec={spec} wf={boolStr (WFcase pom us)} cls={cls} scope={boolStr scope} added={showReqs added}"
     match write pom us with
     | none => s!"r=err {tail}"
     | some pom' => s!"r=ok deps={showDeps pom'.deps} props={showProps pom'.props} reqs={showReqs (requirements pom')} {tail}"
@@ -208,6 +212,8 @@ def handle (line : String) : String :=
   | ["pom", pv, ds, ps, us, rb] => PomDrv.handlePom pv ds ps us rb
   | ["pomc", pv, ds, ps, us, rb] => PomDrv.handlePom pv ds ps us rb   -- comment inside the first <version> (layout only)
   | ["pomd", pv, ds, ps, us, rb] => PomDrv.handlePom pv ds ps us rb   -- CDATA inside the first <version> (layout only)
+  | ["pome", pv, ds, ps, us, rb] => PomDrv.handlePom pv ds ps us rb   -- <dependencyManagement/> (layout only)
+  | ["pomf", pv, ds, ps, us, rb] => PomDrv.handlePom pv ds ps us rb   -- <dependencyManagement> holding <dependencies/> (layout only)
   | _ => "bad-op"
 
 def main : IO Unit := serve handle
